@@ -21,7 +21,8 @@ RULE = ("1-40 scripted blocks over 1-5 files (Python, Go, TOML hosts with bracke
         "multi-line, non-matching) and per-block busy loops (0-2M iterations) so that completion order varies; 0-3 "
         "blocks use a failing script (syntax error, load-time error, runtime error, nil index, missing validate, "
         "number/boolean/false/table/function result), made the fastest or the slowest task; TOKIO_WORKER_THREADS in "
-        "{1,2,4,16} x CPU affinity {1 core, 4 cores, all}; default and safe mode (safe adds a per-call log). Expected: "
+        "{1,2,4,16} x CPU affinity {1 core, 4 cores, all}; default and safe mode (safe adds a per-call log); in a quarter of the runs one check-ai block "
+        "(fake endpoint, answering at once or late) reports on one of the same files. Expected: "
         "decoded arguments == construction truth, calls == 1, one diagnostic per string-returning block and none per "
         "nil-returning block, one log line per block; any failing script => non-zero exit without crash. A case is one "
         "execution; non-trivial = >=3 blocks; distinct = hash of (files, runtime configuration).")
@@ -29,10 +30,10 @@ ASSUMPTIONS = ["content argument = Rust str::trim of the exact content (Unicode 
                "code hosts get content without quotes/brackets (an unterminated string may swallow the end-tag comment); Markdown carries the full character set"]
 
 HOSTS = [("py", "#"), ("go", "//"), ("toml", "#"), ("md", "<!--"), ("md", "<!--")]
-UNSAFE_IN_CODE = set("'\"(){}[]<>\\`")
+UNSAFE_IN_CODE = set("'\"(){}[]<>\\`\u00a0\u2003\u3000\u2028\u0085\x0b")
 FAILS = ["syntax", "runtime", "load", "missing", "number", "boolean", "table", "false", "nilindex", "func"]
 PIECES = ["alpha", "beta gamma", "  lead", "trail  ", "é ü", "日本語", "\U0001F600", "it's", 'say "hi"', "a=b", "<tag>", "x > y", "1 + 2",
-          "id: 42", "id: seven", " nbsp ", " emsp", "tab\there", "100%", "{json: [1,2]}", "(paren)", "semi;colon", "start", "end",
+          "id: 42", "id: seven", "\u00a0nbsp\u00a0", "\u2003emsp", "\u3000ideographic", "trail\u3000", "\u2028ls", "nel\u0085", "\x0bvt", "tab\there", "100%", "{json: [1,2]}", "(paren)", "semi;colon", "start", "end",
           "zzz", "-- dash", "$var", "@at", "~tilde", "^caret", "|pipe|", "comma, separated", "q?", "e!"]
 PATTERNS = [None, None, None, r"(?P<value>\d+)", r"id: (\w+)", r"(?s)start.*end", r"^zzz$", r"(?m)^\s*(?P<value>\S+)$", r"(?P<value>[^\x00-\x7f]+)",
             r"(?s).*", r"(?P<value>\s+\S+\s+)", r"\S+[ \t]+"]
@@ -87,7 +88,7 @@ class LB:
     pass
 
 
-def gen_case(r, script, fail_scripts, logdir):
+def gen_case(r, script, fail_scripts, logdir, ai=False):
     nfiles = r.randint(1, 5)
     nblocks = r.choice([1, 2, 3, 5, 8, 12, 20, 40])
     files, blocks = {}, []
@@ -97,6 +98,7 @@ def gen_case(r, script, fail_scripts, logdir):
     nfail = r.choice([0, 0, 0, 1, 1, 2, 3])
     failing = set(r.sample(range(nblocks), min(nfail, nblocks)))
     fail_fast = r.random() < 0.5
+    ai_file = r.choice([fi for fi in range(nfiles) if per[fi]]) if ai else None
     for fi in range(nfiles):
         if not per[fi]:
             continue
@@ -146,10 +148,11 @@ def gen_case(r, script, fail_scripts, logdir):
             # end-tag comment, which is the host language's business); Markdown gets everything
             pool = PIECES if ext == "md" else [p for p in PIECES if not (set(p) & UNSAFE_IN_CODE)]
             lines = [" ".join(r.choice(pool) for _ in range(r.randint(1, 3))) for _ in range(nl)]
+            uni = ["\u3000", "\u00a0 ", " \u2003", "\u2028", "\u0085"] if ext == "md" else []      # Unicode White_Space at the content's edges
             if r.random() < 0.3:
-                lines.insert(0, r.choice(["", "   ", " "]))
+                lines.insert(0, r.choice(["", "   ", " "] + uni))
             if r.random() < 0.3:
-                lines.append(r.choice(["", "   ", " \t"]))
+                lines.append(r.choice(["", "   ", " \t"] + uni))
             b.tag_line = line
             if ext == "md" and r.random() < 0.15 and not b.failing:
                 # a sibling block on the same source line: `<!-- <block A> --> a <!-- </block> --> <!-- <block B> --> b <!-- </block> -->`
@@ -194,6 +197,13 @@ def gen_case(r, script, fail_scripts, logdir):
             b.content = "\n" + "".join(l + "\n" for l in lines)
             b.expected_content = expected_content(b.content, b.pattern)
             blocks.append(b)
+        if ai and fi == ai_file:
+            # the other asynchronous validator reports on the same file (info severity: the exit status stays check-lua's)
+            tag = '<block name="AI%d" check-ai="must be approved" severity="info">' % fi
+            if ext == "md":
+                out.append("<!-- %s -->\nreviewed text\n<!-- </block> -->\n\n" % tag)
+            else:
+                out.append("%s %s\nreviewed text\n%s </block>\n" % (op, tag, op))
         files[path] = "".join(out)
     return files, blocks
 
@@ -209,7 +219,8 @@ def run_job(job, ctx):
         r = rng("c18", job["seed"], job["i"], j, fl)
         safe = r.random() < 0.4
         logdir = run.fresh_dir("lualog") if safe else None
-        files, blocks = gen_case(r, script, fail_scripts, logdir)
+        with_ai = r.random() < 0.25
+        files, blocks = gen_case(r, script, fail_scripts, logdir, ai=with_ai)
         workers = r.choice([None, 1, 2, 4, 16])
         ncpu = os.cpu_count() or 1
         aff = r.choice([None, None, {r.randrange(ncpu)}, set(r.sample(range(ncpu), min(4, ncpu)))])
@@ -218,6 +229,12 @@ def run_job(job, ctx):
             env["TOKIO_WORKER_THREADS"] = str(workers)
         if safe:
             env["BLOCKWATCH_LUA_MODE"] = "safe"
+        if with_ai:
+            from .. import fake_ai
+            aisrv = fake_ai.instance()
+            late = r.random() < 0.7
+            aisrv.begin(lambda req, late=late: ("delay", 0.25, ("reply", "not approved")) if late else ("reply", "not approved"))
+            env.update(aisrv.env())
         tsan_dir = None
         if fl == "tsan":
             tsan_dir = run.fresh_dir("tsan")
@@ -239,7 +256,7 @@ def run_job(job, ctx):
             out.append(Case(VIOLATED, key=h([files, "tsan"]), nontrivial=True, sig="C18/tsan/" + tsan_sigs[0],
                             summary="ThreadSanitizer report(s): %s" % tsan_sigs[:3], witness={"files": files_text(files, 3000), "reports": tsan_sigs}))
             continue
-        out.append(judge(res, files, blocks, log_lines, dict(job, j=j), workers, aff, safe, fl))
+        out.append(judge(res, files, blocks, log_lines, dict(job, j=j, ai=with_ai), workers, aff, safe, fl))
     return out
 
 
@@ -284,6 +301,12 @@ def judge(res, files, blocks, log_lines, desc, workers, aff, safe, fl):
         return bad("C18/stderr-not-json", "stderr is not the diagnostics object: %s" % res.err_text()[:300])
     got = {}
     order = {}
+    if desc.get("ai"):
+        nai = len([1 for _f, d in dl if d.get("code") == "check-ai"])
+        if nai != 1:
+            return bad("C18/companion-ai-diagnostics-%d" % nai, "the run's one check-ai block has %d diagnostics" % nai)
+        dl = [(f, d) for f, d in dl if d.get("code") != "check-ai"]
+        sets["config"] = [cfg + "/with-check-ai"]
     for f, d in dl:
         if d.get("code") != "check-lua":
             return bad("C18/foreign-diagnostic", "unexpected diagnostic %s" % str(d)[:200])
